@@ -1424,6 +1424,11 @@ class Engine:
             idx = simp(idx)
             fr.env[ins["r"]] = x[idx] if type(idx) is int else self.sym_index(x, idx, st, pos, self.p.types[ins["t"]].get("bits"))
             return
+        if xt["k"] == "string":
+            if not self.oblige(st, self.in_range(idx, x.len), "panic", "string index out of range", pos):
+                return
+            fr.env[ins["r"]] = self.deref(st, PtrV(x.obj, x.path + (self.add64(x.off, simp(idx)),)), pos, 8)
+            return
         raise EngineError("index on " + xt["k"])
 
     def op_lookup(self, st, fr, ins):
